@@ -232,3 +232,12 @@ Section Listeners.
       else if sub =? 2 then handle_aaf pdu st
       else (XHandled, [], st)).
 End Listeners.
+
+(* a listener processing a sequence of datagrams: the statuses, and the state afterwards *)
+Fixpoint runs {S:Type} (step:S -> list N -> lstat * S) (st:S) (ds:list (list N)) : list lstat * S :=
+  match ds with
+  | [] => ([], st)
+  | d :: r => let '(s, st') := step st d in let '(ss, stf) := runs step st' r in (s :: ss, stf)
+  end.
+Definition drop_events {S EV:Type} (step:S -> list N -> lstat * EV * S) : S -> list N -> lstat * S :=
+  fun st d => let r := step st d in (fst (fst r), snd r).
